@@ -2,7 +2,7 @@
 from harness import runlevel as R, skel as S
 
 PROPS = "Props/C13.v"
-THEOREMS = ["C13_mesh_invariant", "C13_poll_update", "C13_poll_best_is_max", "C13_only_polls_change_mesh", "C13_tolmesh_msg"]
+THEOREMS = ["C13_mesh_invariant", "C13_poll_update", "C13_poll_best_is_max", "C13_only_polls_change_mesh", "C13_tolmesh_msg", "C13_tolmesh_msg_run"]
 LEVEL = "proof"
 RULE = ("same real-run panel as C03; every poll step's mesh exponent before/after is compared with the model's; "
         "non-trivial = a run containing both a successful (mesh up or capped) and a failed poll")
